@@ -39,6 +39,67 @@ BLIND_SPOTS = ["a wrong numerical block returned by a contribution", "sign error
 SYS = "cardillo/system.py"
 
 
+def persistent_containers_fresh(ctx, rule="C14.R15"):
+    """K8: `coo[rows, cols] = block` on a CooMatrix appends triplets (duplicates are summed on conversion).  A CooMatrix bound to `self.X` is
+    state that survives the call; the pinned tree creates it in the same routine that fills it (`_M_coo`, `_c_la_c_coo`, both run by
+    assembler_callback), so each assembly starts from an empty container.  Every item store / extend on such an attribute must be dominated,
+    in its own function, by a rebinding of the attribute to a fresh CooMatrix."""
+    from ..cfg import CFG
+    rep = ctx.rep
+    n = 0
+    for rel, mod in sorted(ctx.repo.modules.items()):
+        if not rel.startswith("cardillo/") or rel.startswith("cardillo/utility/"):
+            continue
+        for cls in [c for c in ast.walk(mod.tree) if isinstance(c, ast.ClassDef)]:
+            fresh_attrs = set()
+            for w in ast.walk(cls):
+                if isinstance(w, ast.Assign) and len(w.targets) == 1 and isinstance(w.targets[0], ast.Attribute) and isinstance(w.targets[0].value, ast.Name) \
+                        and w.targets[0].value.id == "self" and isinstance(w.value, ast.Call) and (dotted(w.value.func) or "").split(".")[-1] == "CooMatrix":
+                    fresh_attrs.add(w.targets[0].attr)
+            if not fresh_attrs:
+                continue
+            for fn in [f for f in cls.body if isinstance(f, ast.FunctionDef)]:
+                writes = []
+                for w in ast.walk(fn):
+                    tgt = None
+                    if isinstance(w, (ast.Assign, ast.AugAssign)):
+                        for t in (w.targets if isinstance(w, ast.Assign) else [w.target]):
+                            if isinstance(t, ast.Subscript) and isinstance(t.value, ast.Attribute) and isinstance(t.value.value, ast.Name) and t.value.value.id == "self" \
+                                    and t.value.attr in fresh_attrs:
+                                tgt = t.value.attr
+                    elif isinstance(w, ast.Expr) and isinstance(w.value, ast.Call) and isinstance(w.value.func, ast.Attribute) and w.value.func.attr == "extend" \
+                            and isinstance(w.value.func.value, ast.Attribute) and dotted(w.value.func.value.value) == "self" and w.value.func.value.attr in fresh_attrs:
+                        tgt = w.value.func.value.attr
+                    if tgt:
+                        writes.append((w, tgt))
+                if not writes:
+                    continue
+                cfg = CFG(fn)
+                C = f"{rel}:{cls.name}.{fn.name}"
+                for attr in sorted({a for _, a in writes}):
+                    n += 1
+                    binds = [w for w in ast.walk(fn) if isinstance(w, ast.Assign) and len(w.targets) == 1 and isinstance(w.targets[0], ast.Attribute) and dotted(w.targets[0].value) == "self"
+                             and w.targets[0].attr == attr and isinstance(w.value, ast.Call) and (dotted(w.value.func) or "").split(".")[-1] == "CooMatrix"]
+                    bnodes = [cfg.node_of(b) for b in binds]
+                    bad = None
+                    for w, a in writes:
+                        if a != attr:
+                            continue
+                        wn = cfg.node_of(w)
+                        if not any(bn is not None and wn is not None and cfg.dominates(bn, wn) for bn in bnodes):
+                            bad = w
+                            break
+                    if bad is None:
+                        rep.ok(rule, C, f"self.{attr} is rebound to a fresh CooMatrix before it is filled ({sum(1 for _, a in writes if a == attr)} store site(s))")
+                    elif fn.name == "__init__":
+                        rep.ok(rule, C, f"self.{attr} is filled by the constructor only", trivial=True)
+                    else:
+                        rep.bad(rule, C, bad, f"`{norm_src(bad)[:70]}` appends to the persistent container self.{attr}, which this routine does not create: the container is allocated elsewhere "
+                                "(constructor) and every further call - each System.assemble() runs the callbacks again - adds another copy of all blocks, which the conversion sums",
+                                f"{rel}:{bad.lineno}")
+    rep.note(f"{rule}: {n} persistent CooMatrix attribute(s) with item stores (2 on the pinned tree: the rods' constant mass and compliance matrices)")
+
+
 def run(ctx):
     rep = ctx.rep
     rep.rule("C14.R1", "registry pairing contributions <-> contributions_map on every normal path", 3)
@@ -48,6 +109,8 @@ def run(ctx):
     rep.rule("C14.R5", "list/callee co-definition (non-contact, non-E_pot families)", 40)
     rep.rule("C14.R6", "scatter method m calls contr.m (frozen exception table)", 60)
     rep.rule("C14.R8", "accumulation into index sets that may repeat an index (uDOF/qDOF of interactions) is unbuffered (np.add.at / COO)", 1)
+    rep.rule("C14.R15", "a CooMatrix kept on a contribution (constant mass / compliance matrix) is created in the routine that fills it: item stores into a CooMatrix APPEND, so a container created once and filled on every assembly holds k copies after the k-th assemble()", 0)
+    persistent_containers_fresh(ctx)
     rep.rule("C14.R11", "System state that evaluation methods fill in (memoised conversions, lists) is re-initialised by assemble()", 1)
     rep.rule("C14.R10", "a contribution's stored initial state (q0 / u0) is written from its OWNED index set (my_qDOF / my_uDOF), the set the layout was built from", 2)
     rep.rule("C14.R9", "the name that is inserted into the registry has been tested for uniqueness after its last change", 2)
@@ -864,4 +927,14 @@ MUTANTS += [
 MUTANTS += [
     dict(id="c14-r14-seed", canary=True, what="[seeded by sub-agent] CooMatrix.toarray fills a dense array by fancy-index assignment (overlapping contributions overwrite each other)", file="cardillo/utility/coo_matrix.py",
          old="        return self.tocoo(copy).toarray()\n", new="        import numpy as _np\n        A = _np.zeros(self.shape, dtype=float)\n        A[_np.asarray(self.row, dtype=int), _np.asarray(self.col, dtype=int)] = self.data\n        return A\n", expect="C14.R14"),
+]
+
+MUTANTS += [
+    dict(id="c14-r15-seed", canary=True, what="[seeded by sub-agent] rod: the constant mass matrix container is allocated in the constructor, _M_coo (run by every assembler_callback) only fills it", file='cardillo/rods/_base.py',
+         edits=[('cardillo/rods/_base.py', "        self.set_reference_strains(self.Q)\n\n    def set_reference_strains(self, Q):", "        self.constant_mass_matrix = True\n        self.__M = CooMatrix((self.nu, self.nu))\n\n        self.set_reference_strains(self.Q)\n\n    def set_reference_strains(self, Q):"),
+                ('cardillo/rods/_base.py', "        self.constant_mass_matrix = True\n        self.__M = CooMatrix((self.nu, self.nu))\n        for el in range(self.nelement):", "        for el in range(self.nelement):")], expect="C14.R15"),
+]
+NEUTRAL += [
+    dict(id="c14-n-r15", canary=True, what="rod: _M_coo fills a local container and binds it to the instance at the end", file='cardillo/rods/_base.py',
+         edits=[('cardillo/rods/_base.py', "        self.constant_mass_matrix = True\n        self.__M = CooMatrix((self.nu, self.nu))\n        for el in range(self.nelement):", "        self.constant_mass_matrix = True\n        self.__M = M_coo = CooMatrix((self.nu, self.nu))\n        for el in range(self.nelement):")]),
 ]
